@@ -360,9 +360,11 @@ def closed_loop(chk, repo, ms, md, S, D):
     def body(i, N, L, obl, sync, cpl):
         """mode sum of body i (tide raised by the other body); returns (heating, dUdM, dUdw, dUdO, number of terms)"""
         ef = elook[N][L]; inf = ilook[obl][L]
-        if not (isinstance(ef, FuncRef) and isinstance(inf, FuncRef)):
-            raise AnalysisError('lookup tables do not hold repo functions')
-        etab = it.call(ef.mod, ef.node, [e]); itab = it.call(inf.mod, inf.node, [Is[i]])
+        # (a registry may hold the table functions themselves or callable wrappers around them: either is applied)
+        from ..core.interp import Obj as _Obj
+        if not (isinstance(ef, (FuncRef, _Obj)) and isinstance(inf, (FuncRef, _Obj))):
+            raise AnalysisError('lookup tables do not hold callables of the repository')
+        etab = it.apply(ef, [e], {}, None, None); itab = it.apply(inf, [Is[i]], {}, None, None)
         sp = n if sync else spins[i]
         uniq, res = it.call(mm, f_terms, [sp, n, a, Rs[i], etab, itab], {'multiply_modes_by_sign': True})
         comp = {sig: X.atom(f'J{i}_{sig[0]}_{sig[1]}'.replace('-', 'm'), 'complex') for sig in res}
